@@ -42,6 +42,8 @@ def keys (m : KV) : List Bytes := m.map (·.1)
 
 def NoDupKeys (m : KV) : Prop := (keys m).Nodup
 
+instance (m : KV) : Decidable (NoDupKeys m) := by unfold NoDupKeys; infer_instance
+
 /-! ### strings -/
 
 def hasPrefix (p s : Bytes) : Bool := p.isPrefixOf s
